@@ -325,16 +325,17 @@ def describe(e):
     return dict(t=[float(v) for v in e.time_interval], x=[float(v) for v in e.space_interval])
 
 
-class StubElem:
-    """Element stub (time interval, space interval, piece) for pairs that need not be leaves of one mesh."""
-    def __init__(self, t, x, gamma):
-        from src.mesh import Vertex
-        self.time_interval, self.space_interval, self.gamma_space = t, x, gamma
-        self.h_t, self.h_x = t[1] - t[0], x[1] - x[0]
-        self.vertices = [Vertex(t[0], x[0], -1), Vertex(t[0], x[1], -1), Vertex(t[1], x[1], -1), Vertex(t[1], x[0], -1)]
-
-    def __repr__(self):
-        return 'Elem(t=%s, x=%s)' % (self.time_interval, self.space_interval)
+def StubElem(t, x, gamma):
+    """Element for pairs that need not be leaves of one mesh: the repository's OWN virtual-element class
+    (`DummyElement`, which the estimators hand to `bilform`), so that it carries whatever attributes the code under
+    test expects of an element (vertices, intervals, h_t, h_x, gamma_space, repr)."""
+    from src.hierarchical_error_estimator import DummyElement
+    from src.mesh import Vertex
+    e = DummyElement(vertices=[Vertex(t[0], x[0], -1), Vertex(t[0], x[1], -1), Vertex(t[1], x[1], -1), Vertex(t[1], x[0], -1)],
+                     gamma_space=gamma)
+    # keep the intervals exactly as given (DummyElement derives them from the vertices: the same numbers)
+    assert tuple(e.time_interval) == tuple(t) and tuple(e.space_interval) == tuple(x)
+    return e
 
 
 def dyadic_point(gamma, k, num, j):
